@@ -23,7 +23,8 @@ static struct ubuf_sound_common_mgr g_mgr;
 static struct ubuf_sound_common_mgr_plane g_mp[MAXPL];
 static struct ubuf_sound_common_mgr_plane *g_mplanes[MAXPL];
 static char g_chan[MAXPL][4];
-static struct ubuf_sound_common *g_common;
+static struct { struct ubuf_sound_common c; struct ubuf_sound_common_plane slots[MAXPL]; } g_obj;
+#define g_common (&g_obj.c)
 
 /* ---- ghost state -------------------------------------------------------------- */
 static int g_pi;                    /* ghost plane index < nb_planes: every statement about "plane g_pi" is a forall */
@@ -147,8 +148,6 @@ static void build_sound(uint8_t nb_planes, uint8_t sample_size, size_t size, int
         g_chan[p][0] = p == 0 ? 'l' : p == 1 ? 'r' : 'c'; g_chan[p][1] = 0; g_chan[p][2] = 0; g_chan[p][3] = 0;
         g_mp[p].channel = g_chan[p]; g_mplanes[p] = &g_mp[p];
     }
-    g_common = malloc(sizeof(struct ubuf_sound_common) + MAXPL * sizeof(struct ubuf_sound_common_plane));
-    VASSUME(g_common != NULL);
     g_common->size = size; g_common->ubuf.mgr = &g_mgr.mgr;
     g_oldsize = size; g_pi = pi;
     for (int p = 0; p < MAXPL; p++) {
